@@ -9,7 +9,74 @@ import (
 
 // ---------- C02: completion iff all start events fired and no token remains ----------
 
+// genC02Boundary: a token that comes into being at a boundary event. The host waits, a non-interrupting boundary
+// event fires (the event is handed over before anything is answered), its branch holds a task; the host is answered and
+// the main token reaches its end event while that task may still be pending: completion only when both are through.
+func genC02Boundary(d *Draw) Case {
+	defs := &Definitions{}
+	g := &Graph{ID: "P1", Executable: true}
+	defs.Procs = []*Graph{g}
+	defs.Signals = []string{"sB1"}
+	mk := func(id string) *Node {
+		return g.addNode(&Node{ID: id, Kind: "task", Results: []string{"r_" + id}})
+	}
+	g.addNode(&Node{ID: "S1", Kind: "start"})
+	mk("H")
+	g.connect(defs, "S1", "H", nil, -1)
+	cur := "H"
+	for i, n := 0, d.N(3); i < n; i++ {
+		t := mk(fmt.Sprintf("N%d", i+1))
+		g.connect(defs, cur, t.ID, nil, -1)
+		cur = t.ID
+	}
+	g.addNode(&Node{ID: "EN", Kind: "end"})
+	g.connect(defs, cur, "EN", nil, -1)
+	g.addNode(&Node{ID: "B1", Kind: "boundary", Attached: "H", Interrupting: false, Events: []EventDef{{Kind: "signal", Ref: "sB1"}}})
+	cur = "B1"
+	for i, n := 0, 1+d.N(2); i < n; i++ {
+		t := mk(fmt.Sprintf("X%d", i+1))
+		g.connect(defs, cur, t.ID, nil, -1)
+		cur = t.ID
+	}
+	if d.Bool() {
+		// the boundary branch forks once more
+		g.addNode(&Node{ID: "XF", Kind: "and"})
+		g.connect(defs, cur, "XF", nil, -1)
+		for i := 1; i <= 2; i++ {
+			t := mk(fmt.Sprintf("Y%d", i))
+			g.connect(defs, "XF", t.ID, nil, -1)
+			e := g.addNode(&Node{ID: fmt.Sprintf("EY%d", i), Kind: "end"})
+			g.connect(defs, t.ID, e.ID, nil, -1)
+		}
+	} else {
+		g.addNode(&Node{ID: "EX", Kind: "end"})
+		g.connect(defs, cur, "EX", nil, -1)
+	}
+	g.index()
+	c := &ProcCase{Buf: d.N(17), Hold: 2}
+	c.Events = []EvPlan{{Kind: "signal", Ref: "sB1", First: true}}
+	nw := 1 + d.N(3)
+	for i := 0; i < nw; i++ {
+		wp := WaiterPlan{}
+		if i > 0 && d.N(3) == 2 {
+			wp.TimeoutMs = 500 + 1000*d.N(3)
+			wp.Again = true
+		}
+		if d.N(3) == 2 {
+			wp.Repeat = 1 + d.N(2)
+		}
+		c.Waiters = append(c.Waiters, wp)
+	}
+	c.Picks = drawPicks(d, 24)
+	c.Prog = &Program{Defs: defs, Vars: map[string]any{}, Tags: []string{"token-born-at-a-boundary-event"}, Desc: "host H with a non-interrupting boundary event that fires while H waits; tasks on both paths"}
+	c.Meta = map[string]int{"k": 1, "boundary": 1}
+	return c
+}
+
 func genC02(d *Draw) Case {
+	if d.N(8) == 7 {
+		return genC02Boundary(d)
+	}
 	defs := &Definitions{}
 	g := &Graph{ID: "P1", Executable: true}
 	defs.Procs = []*Graph{g}
@@ -248,6 +315,7 @@ func checkC02(cc Case, r *simrt.Result) *Outcome {
 	o.Tags = c.Prog.Tags
 	o.Nontrivial = r.Switches > 0 && (c.Meta["k"] > 1 || len(c.Waiters) > 1)
 	probe(o, "multi-start", c.Meta["k"] > 1)
+	probe(o, "token-born-at-a-boundary-event", c.Meta["boundary"] == 1)
 	probe(o, "fork-without-join", strings.Contains(strings.Join(c.Prog.Tags, ","), "fork-no-join"))
 	probe(o, "subset-started", len(c.StartOnly) > 0)
 	probe(o, "waiter-expired", c.env.FaultCounts()["waiter-expired-then-waits-again"] > 0)
